@@ -205,9 +205,28 @@ def make_replay(chk, view, meth, argsyms, lib, ref, ranges=None, int_args=(), th
         steps = [('init', view.scalar, 'h', view.name)]
         envs = []
         zero_names = [n for n in names if model and model.get(n) == 0][:6]
-        for i in range(6 + len(zero_names)):
+        # parameters the obligation assumes to be non-zero and nothing else (e.g. the reference length L): the sampling ranges sit around the
+        # positive defaults, so each of them is also evaluated with the other sign (one at a time; the obligation quantifies over both signs)
+        sign_free = []
+        for c_ in getattr(ob, 'assumed', ()):
+            if c_.op == 'not' and c_.a and c_.a[0].op == 'eq' and len(c_.a[0].a) == 2:
+                for a_, b_ in (c_.a[0].a, c_.a[0].a[::-1]):
+                    if a_.op == 'sym' and a_.p in names and tm.isc(b_) and b_.p == 0 and a_.p not in sign_free:
+                        sign_free.append(a_.p)
+        # only where every assumption of the obligation has the form parameter != constant: then the sign-flipped points satisfy all of
+        # them by construction (field-positivity assumptions such as rho > 0 could be broken by a sign flip, so those obligations keep their points)
+        def _simple(c_):
+            return c_.op == 'not' and c_.a and c_.a[0].op == 'eq' and len(c_.a[0].a) == 2 and any(
+                a_.op == 'sym' and tm.isc(b_) for a_, b_ in (c_.a[0].a, c_.a[0].a[::-1]))
+        if not all(_simple(c_) for c_ in getattr(ob, 'assumed', ())):
+            sign_free = []
+        sign_free = sign_free[:4]
+        for i in range(6 + len(zero_names) + len(sign_free)):
             env = rand_env(rng, names, coords, ranges)
-            if i >= 6:
+            if i >= 6 + len(zero_names):
+                n_ = sign_free[i - 6 - len(zero_names)]
+                env[n_] = -env[n_]
+            elif i >= 6:
                 env[zero_names[i - 6]] = Fraction(0)     # one special value of the counterexample at a time, everything else generic
             if i == 5:
                 # same point as the previous evaluation, other parameter values (anything remembered per point would show)
